@@ -101,6 +101,7 @@ type FnTr struct {
 	refute   bool        // counterexample search: bounded unrolling, inlining, no quantifiers
 	unrollK  int
 	excEdges []excEdge   // refute mode: precise exceptional edges
+	stateRecs map[string]*SpecFunc
 	globalSeen map[*ssa.Global]bool
 	globalList []*ssa.Global // package variables this function mentions, in order of first mention
 	excLocks  []excLock    // proof mode: lock state at every panic point caught by a recovering defer
